@@ -84,7 +84,7 @@ claim("C01", "DESIGN.md 5/C01", "Lean 4 induction over fuel and rank on the exec
       "every completed command's inputs completed before it, and what any prefix of the history had stored is still stored unchanged (the memo of a prefix is a prefix of the final memo); result_after_history. "
       "Histories on the implementation include failed runs whose cause is removed, deep copies of the "
       "program between runs (a value in the model: the copy is the program), consumers added through the API with command objects as argument values, and a referenced command deleted and added again under its name after a failed run "
-      "(the `del` step lives in the driver, outside the theorems).", PB)
+      "(the `del` step lives in the driver, outside the theorems). MPilot.C01 (Props/C01Edit.lean), programs that grow: edit_history_ok - over any history of run() calls, result reads AND commands added through the programming interface (grow = what the model's add_command does: addCommand_is_grow), each run or read under its own behaviour of the bodies, if the program reached at the end is acyclic then no command has completed twice, completed commands' inputs completed before them, every stored result belongs to a command of the program (Known: runCmd_known, run_known) and what any earlier point had stored is still stored unchanged; finv_grow, find?_grow, Ranked.shrink.", PB)
 claim("C02", "DESIGN.md 5/C02", "Lean 4 theorems (the run computes a solution of the graph equations; solutions are unique) + replay of every real execute call on the model + invariance oracles",
       "MPilot.C02 (Props/C02Meta.lean): sol_unique_rel and metadata_inert - two models whose commands correspond one to one and differ only in the Metadata arguments (added, removed, changed, on any commands) compute the same result for every command, for bodies that do not read that argument (a fact about the execute bodies which the replay of every real execute call on the metadata-free model command establishes). Theorems in MPilot.C02: run_sol (after a successful run every memoised result equals compute applied to the results of the commands it reads), sol_unique "
       "(an acyclic graph has at most one such assignment: its evaluation), results_order_independent (any permutation of the commands gives the same results), "
